@@ -32,3 +32,27 @@ Print Assumptions C15_no_noop_writes.
 Theorem C15_finalise_idempotent : forall l, finalise (fst (finalise l)) = (fst (finalise l), false).
 Proof. exact finalise_twice. Qed.
 Print Assumptions C15_finalise_idempotent.
+
+(* ---- the built-in Istio scripts (Model/Istio.v) ---- *)
+From RV Require Import Model.Istio Corr.Istio Proofs.Istio.
+
+(* weight path, any VirtualService spec: a rule whose only destination is the stable service (weight absent or 100)
+   ends up with exactly [stable: 100-w; canary: w], on http, tcp and tls alike *)
+Theorem C15_istio_split : forall stable canary w s, split_holds stable canary w s (virtual_service stable canary w O s) = true.
+Proof. exact split_thm. Qed.
+Print Assumptions C15_istio_split.
+
+(* weight path: rules carrying a match, and rules with no destination on the stable service, are left exactly as they were *)
+Theorem C15_istio_others_untouched : forall stable canary w s, untouched_holds stable s (virtual_service stable canary w O s) = true.
+Proof. exact untouched_thm. Qed.
+Print Assumptions C15_istio_others_untouched.
+
+(* matches path: every rule the user had is still there unchanged, behind the generated ones; the script fails only
+   when the spec has no http section *)
+Theorem C15_istio_matches_keep_originals : forall stable canary w n s, n <> O ->
+  match virtual_service stable canary w n s with
+  | Some a => originals_kept n s (Some a) = true
+  | None => vs_http s = None
+  end.
+Proof. exact originals_kept_thm. Qed.
+Print Assumptions C15_istio_matches_keep_originals.
